@@ -434,13 +434,19 @@ def check_C12(ctx):
             ctx.rep.violation({'kind': 'relation', 'relation': 'C12_domain_verdict_mode_independent', 'address': ah, 'tld_check': t,
                                'implementation': {str(m): ' '.join(res[m]) for m in range(4)},
                                'explanation': 'ASCII modes whose local-part scanner accepted report different domain verdict / class / flags'})
+        # address-level inclusion (theorem C12_5321_addresses_included_in_822): a form flag from mode 5321 => the same record from mode 822
+        if len(res[1]) >= 3 and '1' in res[1][2] and res[0][:3] != res[1][:3]:
+            viol += 1
+            ctx.rep.violation({'kind': 'relation', 'relation': 'C12_5321_addresses_included_in_822', 'address': ah, 'tld_check': t,
+                               'implementation': {str(m): ' '.join(res[m]) for m in range(4)},
+                               'explanation': 'mode 5321 took the address as far as a form flag, mode 822 returns another code / flags for it'})
         if is_plain_ascii(a) and is_plain_ascii(local) and all(c < 128 for c in a):
             if len(set((res[m][0], res[m][2]) for m in range(3))) > 1 or (res[3][0] != res[0][0] and res[3][0] != '-2'):
                 viol += 1
                 ctx.rep.violation({'kind': 'relation', 'relation': 'C12_plain_addresses_agree', 'address': ah, 'tld_check': t,
                                    'implementation': {str(m): ' '.join(res[m]) for m in range(4)},
                                    'explanation': 'pure-ASCII address without DQUOTE/backslash: the four modes must give the same code (mode 6531 may give the IDN error -2 instead)'})
-    return finish(ctx, rule='L and E cases in all four modes; relations (equal codes on plain ASCII, 5321 within 822, mode-independent domain verdict) are evaluated on the '
+    return finish(ctx, rule='L and E cases in all four modes; relations (equal codes on plain ASCII, 5321 within 822 for local parts and for whole addresses, mode-independent domain verdict) are evaluated on the '
                   'implementation outputs alone, and the outputs are compared with the model; non-trivial = not an empty part',
                   extra_trusted=['libidn2 2.3.3 as IDN oracle'])
 
